@@ -449,20 +449,31 @@ def trace(body, op, passthrough_extra=(), through_calls=True, _depth=0, _tr=None
         # a pending field projection selects one operand of a tuple / struct / variant aggregate
         st = tr.steps
         idx = None
-        npop = 0
-        if st and st[-1][0] == "field":
-            name, npop = st[-1][1], 1
-        elif len(st) >= 2 and st[-1][0] == "downcast" and st[-2][0] == "field" and rv.get("variant") == st[-1][1]:
-            name, npop = st[-2][1], 2
-        else:
-            name = None
+        # the nearest projection still pending on the value, looking back over plain moves (and hops
+        # into callers, which do not change the value)
+        k_ = len(st) - 1
+        while k_ >= 0 and st[k_][0] in ("use", "enter_caller"):
+            k_ -= 1
+        name = None
+        cut = None
+        if k_ >= 0 and st[k_][0] == "field":
+            name, cut = st[k_][1], (k_, k_ + 1)
+        elif k_ >= 1 and st[k_][0] == "downcast" and st[k_ - 1][0] == "field" and rv.get("variant") == st[k_][1]:
+            name, cut = st[k_ - 1][1], (k_ - 1, k_ + 1)
         if name is not None:
             if rv["agg"] == "tuple" and name.isdigit() and int(name) < len(rv["ops"]):
                 idx = int(name)
             elif rv["agg"] == "adt" and name in rv.get("fields", []):
                 idx = rv["fields"].index(name)
+            elif rv["agg"] == "closure":
+                cb = body.crate.by_id.get(rv.get("closure"))
+                ups = (cb.raw.get("upvars") or []) if cb else []
+                if name in ups and ups.index(name) < len(rv["ops"]):
+                    idx = ups.index(name)
+                elif name.isdigit() and int(name) < len(rv["ops"]):
+                    idx = int(name)
         if idx is not None:
-            del st[-npop:]
+            del st[cut[0]:cut[1]]
             st.append(("agg_field", name))
             return trace(body, rv["ops"][idx], passthrough_extra, through_calls, _depth + 1, tr)
         tr.origin = ("agg", payload, bb)
@@ -1109,6 +1120,34 @@ def strace(sup, node, op, extra=()):
         trace(cbody, cop, extra, _tr=tr)
         cur = cnode
     tr.origin_node = cur
+    return tr
+
+
+def strace_deep(sup, node, op, extra=(), max_hops=6):
+    """Like strace, but when the origin is the result of a call that the supergraph inlines (a same-crate
+    helper, or a closure invoked through FnOnce/FnMut/Fn::call*), continue with the callee's return value,
+    and from there back out through its parameters / captured variables as strace does."""
+    tr = strace(sup, node, op, extra)
+    hops = 0
+    while tr.origin and tr.origin[0] == "call" and hops < max_hops:
+        hops += 1
+        cnode = (tr.origin_node[0], tr.origin[1])
+        inl = [m for lab, m in sup.edges(cnode) if lab == "call"]
+        if not inl:
+            break
+        callee_entry = inl[0]
+        callee = sup.body_of(callee_entry)
+        rets = callee.return_blocks()
+        if not rets:
+            break
+        rnode = (callee_entry[0], rets[0])
+        t2 = strace(sup, rnode, {"k": "copy", "p": {"l": 0, "pr": []}}, extra)
+        if not t2.origin or (t2.origin[0] == "call" and t2.origin_node == rnode and t2.origin[2] is tr.origin[2]):
+            break
+        tr.steps.append(("enter_callee", callee.id))
+        tr.steps.extend(t2.steps)
+        tr.origin = t2.origin
+        tr.origin_node = t2.origin_node
     return tr
 
 
